@@ -22,7 +22,11 @@ char *strdup (const char *s) {
   char *r = malloc(8); __CPROVER_assume(r != NULL); r[7] = 0; return r;
 }
 double nondet_double(void);
-double strtod (const char *s, char **end) { __CPROVER_assert(__CPROVER_r_ok(s, 1), "strtod argument"); if (end) *end = (char *)s + (nondet_bool() ? 0 : 1); return nondet_double(); }
+/* strtod model: end pointer anywhere plausible; the value is one of a few representative doubles -- no C05 obligation
+ * depends on it (the constant-reuse comparison is against arbitrary stored values), and an arbitrary double makes the
+ * double->float conversion in add_constant_str dominate the solver time (undecided at 800 s) */
+double strtod (const char *s, char **end) { __CPROVER_assert(__CPROVER_r_ok(s, 1), "strtod argument"); if (end) *end = (char *)s + (nondet_bool() ? 0 : 1);
+  switch (nondet_int() & 7) { case 0: return 0.0; case 1: return 1.0; case 2: return -3.25; case 3: return 0.1; case 4: return 1e30; case 5: return -1e-30; case 6: return 16777217.0; default: return 255.5; } }
 
 /* number parsing: assumed contract (the real _strtoll is enforced in C15's unit): *endptr points into the string */
 orc_int64 _strtoll (const char *nptr, char **endptr, int base)
@@ -175,5 +179,36 @@ void h_add_then_free(void) {
     default: __CPROVER_assume(p->vars[ORC_VAR_A1 + (p->n_accum_vars < ORC_MAX_ACCUM_VARS ? p->n_accum_vars : 0)].name == NULL); idx = orc_program_add_accumulator(p, 2, g_str); break;
   }
   orc_program_free(p);
+  REACH();
+}
+
+/* orc_program_add_constant_str in assume(requires)/assert(ensures) form (the dfcc form of this one function stopped being
+ * decided within 800 s; same pre/postconditions as the contract in program_api.h, the real _strtoll inlined, no frame
+ * condition claimed) */
+static void hp_acs_one(OrcProgram *p) {
+  int n0 = p->n_insns;
+  int r = orc_program_add_constant_str(p, nondet_int(), g_str, g_str);
+  __CPROVER_assert(PROGRAM_COUNTS_OK(p), "postcondition: PROGRAM_OK");
+  __CPROVER_assert(r == -1 || r == 0 || (r >= ORC_VAR_C1 && r < ORC_VAR_C1 + ORC_MAX_CONST_VARS), "postcondition: -1, 0 or a constant slot");
+  __CPROVER_assert(p->n_insns == n0, "postcondition: instructions untouched");
+  if (r >= ORC_VAR_C1) __CPROVER_assert(__CPROVER_r_ok(p->vars[r].name, 1), "postcondition: the constant has a name");
+}
+/* the constant count is fixed per call site (all values 0..ORC_MAX_CONST_VARS are covered): with a symbolic slot index the
+ * union accesses vars[i].value.{i,f} become byte updates over the whole program object (30 GB formula) */
+void hp_orc_program_add_constant_str(void) {
+  OrcProgram *p = mk_program();
+  int k = p->n_const_vars;
+  switch (k) {
+    case 0: p->n_const_vars = 0; hp_acs_one(p); break;
+    case 1: p->n_const_vars = 1; hp_acs_one(p); break;
+    case 2: p->n_const_vars = 2; hp_acs_one(p); break;
+    case 3: p->n_const_vars = 3; hp_acs_one(p); break;
+    case 4: p->n_const_vars = 4; hp_acs_one(p); break;
+    case 5: p->n_const_vars = 5; hp_acs_one(p); break;
+    case 6: p->n_const_vars = 6; hp_acs_one(p); break;
+    case 7: p->n_const_vars = 7; hp_acs_one(p); break;
+    case 8: p->n_const_vars = 8; hp_acs_one(p); break;
+    default: __CPROVER_assert(0, "PROGRAM_COUNTS_OK bounds n_const_vars by ORC_MAX_CONST_VARS == 8"); break;
+  }
   REACH();
 }
